@@ -52,6 +52,9 @@ type c09Spec struct {
 	// goes away); NoSID: it assigns no session id (the spec says MAY). Closing the session must end that stream.
 	Standalone bool `json:"standalone,omitempty"`
 	NoSID      bool `json:"no_session_id,omitempty"`
+	// InitCut: the answer to initialize is itself an SSE stream that is cut after its priming event; the result is to
+	// be had by resuming it (Last-Event-ID "init_0") like any other response
+	InitCut bool `json:"init_cut,omitempty"`
 }
 
 func genC09(r *vh.Rand) c09Spec {
@@ -106,6 +109,7 @@ func genC09(r *vh.Rand) c09Spec {
 			s.PausesS[r.Intn(len(s.PausesS))] = []int{45, 100, 400}[r.Intn(3)]
 		}
 	}
+	s.InitCut = r.Chance(1, 6)
 	return s
 }
 
@@ -190,7 +194,9 @@ type c09Server struct {
 	fatal   bool
 	runaway bool
 	callID  string
-	tok     any
+	// the response to initialize, once asked for (InitCut)
+	initResp string
+	tok      any
 }
 
 func (s *c09Server) ctype() string {
@@ -291,6 +297,10 @@ func (s *c09Server) RoundTrip(req *http.Request) (*http.Response, error) {
 			}
 			return s.resp(req, 405, "", http.NoBody, nil), nil // no standalone stream
 		}
+		if strings.HasPrefix(leid, "init_") {
+			s.c.Log.Add("initialize-resumed", "leid", leid)
+			return s.resp(req, 200, "text/event-stream", io.NopCloser(strings.NewReader("id: init_1\ndata: "+s.initResp+"\n\n")), nil), nil
+		}
 		s.leids = append(s.leids, leid)
 		outcome := "stall"
 		if s.nRec < len(s.spec.Reconnects) {
@@ -370,6 +380,10 @@ func (s *c09Server) RoundTrip(req *http.Request) (*http.Response, error) {
 		if s.spec.NoSID {
 			hdr = nil
 		}
+		if s.spec.InitCut {
+			s.initResp = fmt.Sprintf(`{"jsonrpc":"2.0","id":%s,"result":%s}`, m.ID, vhm.InitializeResultJSON("2025-11-25"))
+			return s.resp(req, 200, "text/event-stream", io.NopCloser(strings.NewReader("id: init_0\ndata: \n\n")), hdr), nil
+		}
 		return s.resp(req, 200, "application/json", io.NopCloser(strings.NewReader(fmt.Sprintf(`{"jsonrpc":"2.0","id":%s,"result":%s}`, m.ID, vhm.InitializeResultJSON("2025-11-25")))), hdr), nil
 	case m.Method == "tools/call":
 		s.build(m.ID, m.Params.Meta["progressToken"])
@@ -396,8 +410,19 @@ func runC09(c *vh.Case, spec c09Spec) {
 	})
 	cs, err := client.Connect(ctx, &mcp.StreamableClientTransport{Endpoint: "http://example.test/mcp", HTTPClient: &http.Client{Transport: srv}, MaxRetries: spec.MaxRetries}, &mcp.ClientSessionOptions{ProtocolVersion: "2025-11-25"})
 	if err != nil {
+		if spec.InitCut && spec.MaxRetries >= 0 {
+			c.Violate("initialize-not-resumed", "the answer to initialize was an SSE stream cut after its priming event (id init_0); Connect failed with %v instead of resuming it (resume requests seen: %v)", err, srv.leids)
+			return
+		}
+		if spec.InitCut {
+			c.Count("initialize_cut_with_reconnecting_disabled", 1) // nothing may be resumed then: failing is right
+			return
+		}
 		c.Inconclusive("connect: %v", err)
 		return
+	}
+	if spec.InitCut {
+		c.Count("initialize_answers_resumed", 1)
 	}
 	type outcome struct {
 		text string
